@@ -701,8 +701,6 @@ class Spec:
                     strict = False; cbs.append(None); tx.append(None); must_close = None
                     break
                 if flags & CAPS:
-                    if nact > 1 and False:
-                        pass
                     ucap = flags
                     nf = bin(flags & 0xFFFF).count("1")
                     if nf == 0:
@@ -748,8 +746,6 @@ class Spec:
                         break
                     if not ok_all:
                         must_close = True; break
-                    if pos == len(plain) and fin == "end" and False:
-                        pass
                 # Notify / no action: ignored
                 continue
             # classic
@@ -1041,6 +1037,16 @@ class Spec:
                 got_tx = tx.get("tx%d" % i, [])
                 got_c = [e for e in plain if e.startswith("ccb%d:" % i)]
                 dropped = ("cdrop%d" % i) in plain
+                if k == "rawpre":
+                    # still in the handshake: a ServerCutText would corrupt it; nothing may be sent,
+                    # nothing cached, the connection stays as it is
+                    if got_tx:
+                        return "client %d is still in the handshake but received %r" % (i, got_tx)
+                    if i in closed:
+                        return "publish closed handshake client %d" % i
+                    if st.get(i) != prev_state[i]:
+                        return "publish changed the record of handshake client %d: %r -> %r" % (i, prev_state[i], st.get(i))
+                    continue
                 if op == "pub" or not ext:
                     payload = text if op == "pub" else fb
                     if payload is None:
@@ -1097,7 +1103,7 @@ class Spec:
             for i in newly_closed:
                 if self.kind[i] != "lib":
                     return "publish closed connection %d" % i
-            if op == "pub8" and fb is None and any(self.kind[i] != "fsrv" and i in prev_state and not prev_state[i][0] for i in prev_open):
+            if op == "pub8" and fb is None and any(self.kind[i] in ("raw", "lib") and i in prev_state and not prev_state[i][0] for i in prev_open):
                 self.null_with_classic = True
             return None
         return None
@@ -1241,6 +1247,7 @@ def run(ctx):
         fails += fl
         dist["exact_scripts" if exact else "oracle_only_scripts"] += 1
         nontriv = 0
+        nclosed = 0
         for l, ob in zip([x for x in script.splitlines() if x.strip() and not x.startswith("#")], impl):
             k = l.split()[0]
             dist["ops"][k] = dist["ops"].get(k, 0) + 1
@@ -1250,6 +1257,10 @@ def run(ctx):
                 dist["text_sizes"][b] = dist["text_sizes"].get(b, 0) + 1
             if ob == "HANG":
                 dist["hang"] += 1
+            pr = Spec.parse(ob) if "|" in ob else None
+            if pr and len(pr[1]) > nclosed:
+                dist["closed_offenders"] += len(pr[1]) - nclosed
+                nclosed = len(pr[1])
             for e in ob.split("|")[0].split():
                 kind = "".join(c for c in e.split(":")[0] if not c.isdigit())
                 if e.startswith("tx") or e.startswith("ctx"):
@@ -1275,6 +1286,7 @@ def run(ctx):
 
 PARTIAL = [
     "client_to_app_exact_partial / client_roundtrip_partial: the extended direction is proved for every text whose COMPRESSED message fits the 1 MiB message limit (exact characterisation; client_to_app_compressed_oversize proves the others are refused and the sender closed). The unrestricted statement 'every text up to 1 MiB' is false of the code for incompressible texts within a few hundred bytes of 1 MiB; on LibVNCClient<->server links these lengths are checked by the direct oracle only",
+    "handshake states are not modelled beyond the flag `normal` (publish functions skip such clients; the handler model `feed` is for NORMAL connections only)",
     "write failures / allocation failures of the senders are not modelled (peer buffers are large in the harness)",
     "SetEncodings is modelled only in its effect on the clipboard state; other message types are outside the model ('unmodelled')",
     "segmentation: the model consumes the concatenated stream; independence from segmentation is exercised (interposed read(): every 1-cut split of a six-message stream on either library, random 1-3 cuts elsewhere, each cut followed by one EAGAIN) but is a property of rfbReadExact/ReadFromRFBServer, not proved here",
@@ -1283,7 +1295,7 @@ ASSUMPTIONS = [
     "single-threaded application-driven event loop (helper thread only during the LibVNCClient handshake)",
     "zlib laws ZLaw (inflate . compress = id, sync-flushed stream yields the data and stays open) and the inflate return-code derivation zcall",
     "ASan fills fresh heap blocks with 0xbe (makes 'uninitialised bytes delivered' a deterministic observation)",
-    "the model follows /repo with fixes/C18-*.diff applied",
+    "the model follows /repo including the three C18 fixes (30802b5, 747b2ec, ee998a0); their witnesses are in corpus/C18 and fail the check if a defect returns",
 ]
 
 META = {
